@@ -52,6 +52,7 @@ type State struct {
 	stdinPos int
 	exited   bool
 	procM    *procModel
+	opts     map[string]bool
 }
 
 func newState() *State {
@@ -76,6 +77,12 @@ func (s *State) clone() *State {
 	if s.procM != nil {
 		c := *s.procM
 		n.procM = &c
+	}
+	if s.opts != nil {
+		n.opts = map[string]bool{}
+		for k, v := range s.opts {
+			n.opts[k] = v
+		}
 	}
 	for k := range s.pcSet {
 		n.pcSet[k] = true
